@@ -134,6 +134,48 @@ fn cli_duplicates_and_names(ctx: &Ctx) {
         }
         ring.push_str(&text);
     }
+    // the same names again, this time the tool writes (and extends) the keyring FILE itself: the file's sections
+    // must be exactly the names written, in order, each with a key that opens under its password
+    {
+        let mut written: Vec<String> = Vec::new();
+        for n in names.iter() {
+            let o = Cmd::new(&wd.path, &["key", "generate", "-o", "tool-made.txt", "--env-pass"]).pass("gpw").stdin(Stdin::Bytes(format!("{}\n", n).into_bytes())).run();
+            ctx.eval();
+            written.push(n.to_string());
+            let text = String::from_utf8_lossy(&std::fs::read(wd.file("tool-made.txt")).unwrap_or_default()).into_owned();
+            // independent reading of the file: section headers and the three fields of each
+            let mut secs: Vec<(String, String, String)> = Vec::new();
+            let mut junk = false;
+            for line in text.lines() {
+                let t = line.trim();
+                if t == "[Key]" {
+                    secs.push((String::new(), String::new(), String::new()));
+                } else if let Some((k, v)) = line.split_once('=') {
+                    let v = v.trim().to_string();
+                    match (k.trim(), secs.last_mut()) {
+                        ("Name", Some(s)) => s.0 = v,
+                        ("PublicKey", Some(s)) => s.1 = v,
+                        ("PrivateKey", Some(s)) => s.2 = v,
+                        _ => junk = true,
+                    }
+                } else if !t.is_empty() && !t.starts_with('#') {
+                    junk = true;
+                }
+            }
+            let names_ok = secs.iter().map(|s| s.0.clone()).collect::<Vec<_>>() == written.iter().map(|w| w.trim().to_string()).collect::<Vec<_>>();
+            let keys_ok = secs.iter().all(|s| matches!(refspec::unlock_sk(&s.2, b"gpw"), Ok(sk) if Some(refspec::pubkey_of(&sk)) == refspec::decode_pk(&s.1)));
+            if o.exit == Exit::Timeout {
+                ctx.inconclusive("C17 cli: timeout");
+                break;
+            }
+            if o.exit != Exit::Code(0) || junk || !names_ok || !keys_ok {
+                ctx.violation("C17:cli:keyring-file-written-by-the-tool-is-not-exactly-the-entries-written", json!({"names_written_so_far": written, "sections_found": secs.iter().map(|s| s.0.clone()).collect::<Vec<_>>(), "stray_lines": junk, "every_key_opens": keys_ok, "exit": o.exit.describe(), "stderr": o.stderr_s(), "file_len": text.len()}));
+                break;
+            }
+            ctx.seen("cli: keyring file written and extended by the tool holds exactly the entries written");
+            ctx.distinct(&format!("toolmade|{}", written.len()));
+        }
+    }
     ring.push('\n');
     ring.push_str(&alice.entry(true));
     wd.write("gen.txt", ring.as_bytes());
@@ -216,6 +258,7 @@ pub fn cli_lanes(ctx: &Ctx) {
     cli_duplicates_and_names(ctx);
     cli_checksum_in_every_role(ctx);
     ctx.require("cli: entry with a non-matching checksum is unusable", 3);
+    ctx.require("cli: keyring file written and extended by the tool holds exactly the entries written", 5);
     ctx.require("cli: keyring with a repeated name or key is refused", 3);
     ctx.require("cli: a name written by key generate selects exactly its own key", 4);
 }
